@@ -221,6 +221,30 @@ chk("C13",
     floors={"quick": {"scripts": 10000, "callback_invocations_observed": 50000, "porcupine_histories": 10000}},
     )
 
+chk("C16",
+    level="fault_enumeration",
+    technique="recording, fault-injecting http.ResponseWriter doubles of every shape (Flusher, FlushError, both, wrapped once/twice via Unwrap, none) under real Session/Server code: failure injected at every underlying Write/Flush operation of every script; ordered call log with header snapshots checked against the HTTP obligations; recording Provider for ServeHTTP",
+    level_text="For seeded Send/Flush scripts (1-8 calls, hostile messages) on every flushing writer shape, the number W of underlying write/flush operations is measured and the script re-executed once per (operation index k < W, accepted bytes 0/1/all) with the writer failing there. The monitor checks on the writer's own call log: Content-Type text/event-stream present and successfully flushed before the first body byte, no header access after the stream started, body == concatenation of the encodings of the Sends that returned nil (+ accepted prefix of the failing one), a Flush that returned nil is followed by no unflushed write, the failing call returns the injected error and nothing is written afterwards. ServeHTTP is run against a recording Provider for every shape x Last-Event-Id header value x OnSession behaviour x provider refusal.",
+    level_note="Writers respect the io.Writer contract. A plain http.Flusher cannot report flush failures, so those are injected only on FlushError shapes. http.Error after a started stream is not judged.",
+    rule="cases = seeded session scripts x writer shape x every underlying operation index x {0,1,all} accepted bytes + Upgrade on all 8 shapes + seeded ServeHTTP configurations; non-trivial = script with more than one call (sessions) / every ServeHTTP configuration; distinct = distinct (shape, script) or configuration",
+    assumptions=["response writers respect the io.Writer contract"],
+    nbatch={"quick": 16, "thorough": 16},
+    timeout_s={"quick": 600, "thorough": 3600},
+    floors={"quick": {"faulted_executions": 100000, "servehttp_executions": 3000}},
+    )
+
+chk("C19",
+    level="exploration",
+    technique="shadow-model monitor: every member of a family of clones carries its own line model; after every mutation (AppendData/AppendComment/field assignment/Clone) the real String() of every member is compared with its model; publishing one *Message repeatedly through real replayers (Put) and through Joe (sequentially and from concurrent goroutines, race detector on) with before/after comparison of the argument and of the assigned IDs",
+    level_text="Seeded op strings of 5-40 mutations over families of up to 6 messages with clone points anywhere (incl. after appends that leave spare slice capacity), plus an exhaustive block: clone taken after 0..12 appends x all 6 orders of appending to the original and two sibling clones. Republish: one message put 2-7 times into each replayer kind x ID mode; the argument's encoding and ID.IsSet must not change, automatic IDs must be consecutive, the stored copy must not alias the argument; through Joe with 1-4 concurrent publishers.",
+    level_note="Trusts the line model's Encode as the expected encoding of a mutation history.",
+    rule="cases = seeded clone-family op strings + exhaustive clone-point block + seeded republish scenarios (direct Put and through Joe); non-trivial = family with at least one clone / every republish scenario; distinct = distinct op string or scenario",
+    assumptions=["messages are not mutated concurrently with Publish by the caller"],
+    nbatch={"quick": 8, "thorough": 16},
+    timeout_s={"quick": 600, "thorough": 3600},
+    floors={"quick": {"family_checks": 300000, "puts": 5000, "joe_republish_executions": 1000}},
+    )
+
 not_built = {
 }
 
